@@ -199,6 +199,10 @@ def run_one(db, c):
     try:
         got, e = expand(db, text)
     except Exception as err:                                   # noqa: BLE001
+        from harness.common import MachineryError
+        from harness.templwiki import harness_error
+        if isinstance(err, MachineryError) or harness_error(err):
+            raise MachineryError("the harness failed while expanding %r: %s: %s" % (text[:80], type(err).__name__, err))
         import traceback
         tb = traceback.extract_tb(err.__traceback__)
         fr = [f for f in tb if "/mwlib/" in f.filename]
